@@ -188,8 +188,10 @@ func TestC09FsyncFailure(t *testing.T) {
 			}
 			for _, en := range []int{5 /*EIO*/, 28 /*ENOSPC*/} {
 				s := mk()
-				res, out, err := s.trace([]Op{op}, &Injection{Op: 0, Event: ev.Seq, Errno: en, Name: ev.Name}, false)
-				if err != nil || len(res.Ops) != 1 || len(out) != 1 {
+				// the same process (same store handle) goes on after the failure: an unrelated add follows
+				follow := Op{Kind: "add", User: "zed", PW: "after-the-failure"}
+				res, out, err := s.trace([]Op{op, follow}, &Injection{Op: 0, Event: ev.Seq, Errno: en, Name: ev.Name}, false)
+				if err != nil || len(res.Ops) != 2 || len(out) != 2 {
 					s.cleanup()
 					t.Fatalf("VERIF-INFRA injected run: %v", err)
 				}
@@ -243,6 +245,43 @@ func TestC09FsyncFailure(t *testing.T) {
 					vlib.Class("op-acknowledged-despite-failed-fsync(still durable in every image)")
 				} else {
 					vlib.Class("failed-fsync-reported-as-failure")
+				}
+				// the operation after the failure: acknowledged => durable in every image of the whole run
+				if o2 := res.Ops[1]; o2.Outcome == "ok" {
+					m := newPModel(o.Pre)
+					for _, ox := range res.Ops {
+						for _, e2 := range ox.Events {
+							if e2.Before == nil {
+								continue
+							}
+							m.observe(e2.Before)
+							if e2.Kind == "sync" && e2.Ret == 0 {
+								if e2.IsDir {
+									rel, _ := filepath.Rel(s.base, e2.Path)
+									m.fsyncDir(rel)
+								} else {
+									m.fsyncFile(e2.Ino)
+								}
+							}
+						}
+						m.observe(ox.Post)
+					}
+					want := snapFiles(o2.Post)["zed.user"]
+					first, _ := vlib.SplitRecord(want)
+					if !cfg.Verify(first, follow.PW) {
+						s.cleanup()
+						t.Fatalf("VIOLATION C09: add(zed) after a failed fsync in %s was acknowledged but its record is not complete: %s", op.Kind, vlib.Q(first))
+					}
+					for _, img := range m.images(4000) {
+						if got, ok := userFiles(img.Files)["zed.user"]; !ok || !bytes.Equal(got, want) {
+							s.cleanup()
+							t.Fatalf("VIOLATION C09: after %s(%s) had hit a failing fsync (syscall #%d, errno %d), the next operation on the same handle, add(zed), was acknowledged but is not durable: image [%s] holds %s",
+								op.Kind, op.User, ev.Seq, en, img.Desc, describeFiles(userFiles(img.Files)))
+						}
+					}
+					vlib.Class("operation-after-a-failed-fsync-acknowledged-and-durable")
+				} else {
+					vlib.Class("operation-after-a-failed-fsync-reported-failure(not judged by C09)")
 				}
 				vlib.NT("c09f", op.Kind, target, ev.Seq, en)
 				s.cleanup()
